@@ -40,6 +40,9 @@ def check(ctx):
     repo = ctx.repo
     from . import generic as _gen
     _gen.language_traps(ctx, _gen.anchor_functions(repo, "C05"), "the property holds for every input, on every call")
+    _gen.bool_mask_dtype(ctx, _gen.module_functions(repo, "dataiter.vector", "dataiter.data_frame"),
+                         "all joins succeed when either side is empty")
+    _gen.total_functions(ctx, ["dataiter.data_frame.DataFrame._get_join_indices"])
     for r, t in (("TS-other", "right-hand frame reduced to non-missing unique keys before the key->row dict is built"),
                  ("IDX", "whole rows, own columns unchanged, one index pair"),
                  ("SIB-5", "NA value and NA dtype come from the same column"),
